@@ -50,3 +50,12 @@ package output
 //@   site fmt.Fprint#3 requires held(pw.prefixed.mutex)                                                                [C17,C18]
 //@ guarded_by Prefixed.seen Prefixed.mutex                                                                          [C18]
 //@ guarded_by Prefixed.counter Prefixed.mutex                                                                       [C18]
+
+// Prefixed: every chunk a command writes goes into the line buffer and leaves it only through writeOutputLines
+// (which takes complete lines out, once each); Write itself never emits a line.
+//@ func (*prefixWriter).Write
+//@   nosite (*prefixWriter).writeLine                                                                                  [C17]
+//@   site (*Buffer).Write#1 requires arg1 == p                                                                         [C17]
+//@   site (*prefixWriter).writeOutputLines#1 requires arg0 == pw && !arg1                                              [C17]
+//@ func (*prefixWriter).close
+//@   site (*prefixWriter).writeOutputLines#1 requires arg0 == pw && arg1                                               [C17]
